@@ -59,6 +59,9 @@ def run(ctx):
     r10_saved_params(ctx)
     from . import c13
     c13.r13_forwarding_getattr(ctx, rule="C04.R11")   # "after pickling": cached / materialised environments hold row views
+    from . import c09
+    c09.r8_cache_per_environment(ctx, rule="C04.R12")  # cache()/chunk(): one replay buffer per environment, never one shared through Environments.filter
+    r13_member_numbering(ctx)
 
 
 DRAWS = {"choice", "choicew", "random", "randoms", "randint", "randints", "shuffle", "gauss", "gausses"}
@@ -938,14 +941,14 @@ def _cache_slices(fn):
     return out
 
 
-def r6_replay_buffer(ctx, rule="C04.R6"):
+def r6_replay_buffer(ctx, rule="C04.R6", base=False):
     """pipes.Cache is the one by-design cross-read state: its protocol must keep 'buffer + saved iterator' equal to the source."""
     ctx.rule(rule, "pipes.Cache: items are appended to the buffer before they are handed out; the saved iterator is dropped with the buffer kept "
                        "(= 'buffer complete') only on the path where a slice came back empty -- never on an abandoned read; a source that fails "
                        "part-way drops buffer and iterator together (the next read starts over) and the error propagates")
     from ..cfg import CFG
     fn = ctx.fn(PF, "Cache.filter")
-    g = CFG(fn)
+    g = CFG(fn, base_exceptions=base)   # base: also KeyboardInterrupt & co while the source is read
     reach = g.reachable()
 
     def none_store(n, attr):
@@ -1072,6 +1075,72 @@ def r7_held_learners(ctx, fam, rule="C04.R7"):
     ctx.floor(rule, "uses of held learners on read paths", n, 1)
 
 
+def r13_member_numbering(ctx, rule="C04.R13"):
+    """save() continues an existing archive one past the largest member index: member names are decimal strings, so every ordering
+    operation (max/min/sorted/comparison) over them must act on int(name) -- string order puts '9' after '10'."""
+    ctx.rule(rule, "archive members are ordered as numbers: wherever names from ZipFile.namelist() reach max/min/sorted/sort or a comparison they have been converted "
+                   "with int() first (a lexicographic maximum re-uses index 10 once members '0'..'10' exist and a continued save() overwrites an environment)")
+    n = 0
+    for rel in ("coba/environments/serialized.py", "coba/environments/core.py"):
+        mod = ctx.model.modules[rel]
+        for fn in [x for x in ast.walk(mod.tree) if isinstance(x, ast.FunctionDef)]:
+            if not any(isinstance(c, ast.Call) and call_tail(c) == "namelist" for c in ast.walk(fn)):
+                continue
+            from ..model import qualname
+            qual = qualname(fn)
+            ctx.touch(rel, qual)
+            strs, lists = set(), set()
+            changed = True
+            while changed:
+                changed = False
+                for x in ast.walk(fn):
+                    its = []
+                    if isinstance(x, ast.For):
+                        its.append((x.target, x.iter))
+                    if isinstance(x, (ast.ListComp, ast.SetComp, ast.GeneratorExp)):
+                        its += [(g.target, g.iter) for g in x.generators]
+                    for tgt, it in its:
+                        src = any(isinstance(c, ast.Call) and call_tail(c) == "namelist" for c in ast.walk(it)) or (isinstance(it, ast.Name) and it.id in lists)
+                        if src and isinstance(tgt, ast.Name) and tgt.id not in strs:
+                            strs.add(tgt.id)
+                            changed = True
+                    if isinstance(x, ast.Assign) and len(x.targets) == 1 and isinstance(x.targets[0], ast.Name):
+                        v = x.value
+                        raw = (isinstance(v, (ast.ListComp, ast.SetComp)) and isinstance(v.elt, ast.Name) and v.elt.id in strs) or \
+                              (isinstance(v, ast.Call) and (call_tail(v) == "namelist" or (call_name(v) in ("list", "sorted", "set") and v.args and any(
+                                  isinstance(c, ast.Call) and call_tail(c) == "namelist" for c in ast.walk(v.args[0])))))
+                        if raw and x.targets[0].id not in lists:
+                            lists.add(x.targets[0].id)
+                            changed = True
+
+            def raw_use(e):
+                """does a member name (or a list of them) occur in e outside an int(...) conversion?"""
+                def walk(node, inside_int):
+                    if isinstance(node, ast.Call) and call_name(node) == "int":
+                        return any(walk(a, True) for a in node.args)
+                    if isinstance(node, ast.Name) and (node.id in strs or node.id in lists):
+                        return not inside_int
+                    if isinstance(node, ast.Call) and call_tail(node) == "namelist":
+                        return not inside_int
+                    return any(walk(ch, inside_int) for ch in ast.iter_child_nodes(node))
+                return walk(e, False)
+            for x in ast.walk(fn):
+                if isinstance(x, ast.Call) and (call_name(x) in ("max", "min", "sorted") or call_tail(x) == "sort"):
+                    args = list(x.args) + ([x.func.value] if call_tail(x) == "sort" and isinstance(x.func, ast.Attribute) else [])
+                    keyed = kw(x, "key") is not None and "int" in unparse(kw(x, "key"))
+                    involved = [a for a in args if any((isinstance(y, ast.Name) and (y.id in strs or y.id in lists)) or (isinstance(y, ast.Call) and call_tail(y) == "namelist") for y in ast.walk(a))]
+                    if not involved:
+                        continue
+                    n += 1
+                    ctx.ob(rule, rel, qual, x, "member names are ordered as numbers (int(name)), not as strings", keyed or not any(raw_use(a) for a in involved))
+                if isinstance(x, ast.Compare) and any(isinstance(o, (ast.Lt, ast.LtE, ast.Gt, ast.GtE)) for o in x.ops):
+                    parts = [x.left] + list(x.comparators)
+                    if any(isinstance(y, ast.Name) and y.id in strs for p_ in parts for y in ast.walk(p_)):
+                        n += 1
+                        ctx.ob(rule, rel, qual, x, "member names are compared as numbers (int(name)), not as strings", not any(raw_use(p_) for p_ in parts))
+    ctx.floor(rule, "ordering operations over archive member names", n, 1)
+
+
 def _bounded_memo(tree):
     from ..mutate import find_def
     fn = find_def(tree, "Grounded.GroundedFeedback.__call__")
@@ -1079,6 +1148,9 @@ def _bounded_memo(tree):
 
 
 CONTROLS = [
+    ("next member index from the lexicographic maximum", "coba/environments/serialized.py", M.replace_stmt("ObjectsToZipMember.__init__", lambda st: isinstance(st, ast.For),
+        "members = [n for n in ZipFile(self._zip).namelist() if n.isdigit()]\nif members: self._start = int(max(members)) + 1"), "C04.R13"),
+    ("one Cache shared through Environments.filter", "coba/environments/core.py", M.replace_expr("Environments.cache", "Environments([Pipes.join(env, Cache(25)) for env in self._envs])", "self.filter(Cache(25))"), "C04.R12"),
     ("save takes the params before reading", "coba/environments/serialized.py", M.swap_stmts("EnvironmentsToObjects._env_to_objects", M.text_has("peek_first(env.read())"), M.simple_has("yield env.params")), "C04.R10"),
     ("feedback memo evicts", EF, _bounded_memo, "C04.R9"),
     ("failing source leaves a truncated buffer", PF, M.replace_stmt("Cache.filter", lambda st: isinstance(st, ast.While),
